@@ -137,10 +137,18 @@ func (b *trzszBuffer) readLine(mayHasJunk bool, timeout <-chan time.Time) ([]byt
 	}
 }
 
+// kMaxReadBinaryPreAlloc limits how much readBinary allocates up front on the
+// strength of the announced size alone; beyond it the buffer grows as data arrives.
+const kMaxReadBinaryPreAlloc = 16 * 1024 * 1024
+
 func (b *trzszBuffer) readBinary(size int, timeout <-chan time.Time) ([]byte, error) {
 	b.readBuf.Reset()
 	if b.readBuf.Cap() < size {
-		b.readBuf.Grow(size)
+		if size > kMaxReadBinaryPreAlloc {
+			b.readBuf.Grow(kMaxReadBinaryPreAlloc)
+		} else {
+			b.readBuf.Grow(size)
+		}
 	}
 	b.timeout = timeout
 	b.newTimeout = nil
